@@ -10,12 +10,14 @@ PARTS = {
       T('probe5', 'base', 'prop=C05', 'keys=probe', 'vals=probe', 'nkeys=5'),
       T('probe4-two', 'base', 'prop=C05', 'keys=probe', 'vals=probe', 'nkeys=4', 'two=1', 'depth=6'),
       T('strprobe4-asan', 'asan', 'prop=C05', 'keys=str', 'vals=probe', 'nkeys=4'),
+      T('intprobe5', 'base', 'prop=C05', 'keys=int', 'vals=probe', 'nkeys=5'), T('probeint4-asan', 'asan', 'prop=C05', 'keys=probe', 'vals=int', 'nkeys=4'),
       T('probe3-two-asan', 'asan', 'prop=C05', 'keys=probe', 'vals=probe', 'nkeys=3', 'two=1', 'depth=5'),
     ],
     'thorough': [
       T('probe7', 'base', 'prop=C05', 'keys=probe', 'vals=probe', 'nkeys=7'),
       T('probe4-two', 'base', 'prop=C05', 'keys=probe', 'vals=probe', 'nkeys=4', 'two=1', 'depth=9'),
       T('strprobe5-asan', 'asan', 'prop=C05', 'keys=str', 'vals=probe', 'nkeys=5'),
+      T('intprobe7', 'base', 'prop=C05', 'keys=int', 'vals=probe', 'nkeys=7'), T('probeint5-asan', 'asan', 'prop=C05', 'keys=probe', 'vals=int', 'nkeys=5'),
       T('probe3-two-asan', 'asan', 'prop=C05', 'keys=probe', 'vals=probe', 'nkeys=3', 'two=1', 'depth=7'),
     ],
   },
@@ -25,6 +27,7 @@ PARTS = {
       T('str4', 'base', 'prop=C10', 'keys=str', 'nkeys=4'),
       T('int4-swap', 'base', 'prop=C10', 'keys=int', 'nkeys=4', 'two=1', 'depth=5'),
       T('int4-asan', 'asan', 'prop=C10', 'keys=int', 'nkeys=4'),
+      T('intprobe4', 'base', 'prop=C10', 'keys=int', 'vals=probe', 'nkeys=4'), T('probeint4', 'base', 'prop=C10', 'keys=probe', 'vals=int', 'nkeys=4'),
     ],
     'thorough': [
       T('int7', 'base', 'prop=C10', 'keys=int', 'nkeys=7'),
